@@ -109,7 +109,7 @@ Lemma lay1_inv l h : lay1_ok l h = true -> lay1_facts l h.
 Proof.
   unfold lay1_ok. rewrite !andb_true_iff.
   intros [[[[[[[[[[[[[[[[[[[[[A0 A1] A2] A3] A4] A5] A6] A7] A8] A9] A10] A11] A12] A13] A14] A15] A16] A17] A18] A19] A20] A21].
-  constructor; try assumption; lia.
+  constructor; try assumption; apply Nat.leb_le; assumption.
 Qed.
 
 Lemma search_v1_layout l h rest : valid1 h = true -> lay1_ok l h = true -> stops is_word_dash rest ->
